@@ -213,6 +213,13 @@ def check_claim(chk, cfg, m, fn):
         cas = _events_on(p, fn, m, "sendp", ("cmpxchg",))
         other_w = [e for e in sendp_w if e.kind != "cmpxchg"]
         for e in other_w:
+            if e.kind == "rmw" and e.extra in ("add", "sub"):
+                # a fetch-and-add hands every claimer a different ticket; whether the scheme is right then hinges on how the ticket
+                # counter is brought back into range, which is a protocol of its own that these rules have no model of
+                chk.unknown("R4.cas-handout", pathid, "sendp is advanced by an atomic fetch-and-%s (a ticket scheme), not by the "
+                            "compare-exchange these rules are stated over: how tickets map to slots across the wrap is not decided"
+                            % e.extra, e.inst.loc)
+                continue
             chk.ob("R4.cas-handout", pathid, False,
                    "sendp is advanced by %s, not by a compare-exchange: two claimers can obtain the same slot"
                    % e.kind, e.inst.loc, fn.name)
